@@ -59,7 +59,7 @@ def source(game, a, r):
             objs.append({"x": (512 * n["c"] + 256) // K, "y": 192, "t": t, "type": 128 if hold else 1, "hs": 0,
                          "end": int(round(_time(a, n["q"] + n["ln"]) * 1000)) if hold else 0, "ss": 0, "as": 0, "ci": 0, "vol": 0,
                          "file": "", "arity": 6 if hold else 5})
-        tps = [{"t": int(a["t0"] * 1000), "code": 50000, "meter": 4, "ss": 0, "si": 0, "vol": 100, "uninh": 1, "fx": 0, "arity": 8}]
+        tps = [{"t": int(a["t0"] * 1000), "code": 50000, "meter": r.choice([4, 3, 7]), "ss": 0, "si": 0, "vol": 100, "uninh": 1, "fx": 0, "arity": 8}]
         if a["two_tempo"]:
             tps.append({"t": int(_time(a, 16) * 1000), "code": 25000, "meter": 4, "ss": 0, "si": 0, "vol": 100, "uninh": 1, "fx": 0, "arity": 8})
         from harness.drivers.c01 import meta_lines
@@ -82,7 +82,11 @@ def source(game, a, r):
             objs.append({"k": "2" if n["ln"] else "1", "c": n["c"], "i": n["q"], "j": n["q"] + n["ln"]})
         scn = {"type": SM_TYPE[K], "rows": [16, 16], "objs": objs, "off": int(a["t0"] * 100),
                "bpms": [{"p48": 0, "bl": 50000}] + ([{"p48": 4 * 48, "bl": 25000}] if a["two_tempo"] else [])}
-        text = sm_text.concretize(scn)
+        # a second, different chart of the same type in the set
+        k2 = K
+        grid2 = [["0"] * k2 for _ in range(8)]
+        grid2[1][0], grid2[5][k2 - 1] = "1", "1"
+        text = sm_text.concretize(scn, extra_charts=[(SM_TYPE[K], [grid2[:4], grid2[4:]], "Easy", "2")])
         return text, sm_text.lex(text), ""
     if game == "bms":
         lines = []
